@@ -427,6 +427,17 @@ def rounds_c(x: fp.Real, y: fp.Real) -> fp.Real:
     return u + a
 
 
+@fp.fpy
+def exprs_a(x: fp.Real, y: fp.Real) -> fp.Real:
+    # calls inside the arms and the condition of conditional expressions
+    a = (leaf(x) if x > 331 else mid(y)) + 332
+    b = a * 333
+    c = leaf(b) if mid(b) > 334 else b
+    d = (b if c > 335 else leaf(c) * 336) - 337
+    return a + c + d
+
+
+ROOTS.append('exprs_a')
 ROOTS.append('rounds_c')
 ROOTS.append('long_block')
 ROOTS.append('rw_a')
